@@ -50,6 +50,22 @@ CLAIMED["C18"] = ("proof", CLAIMED["C12"][1] + "; bounded runs of the real `reus
 CLAIMED["C14"] = ("proof", CLAIMED["C12"][1] + "; frame obligations (no mutation of heap objects or of collections held by frozen values reachable from the inputs); bounded child-process runs over the hidden parameters",
     "determinism as a functional property: Project.reuse_info_of, the worker callable, FileReport.generate and ProjectReport.generate are proved against contracts stated over sets and maps with frames (the answer for a file cannot depend on files processed earlier or elsewhere); exhaustive scan for nondeterminism sources; the real lint --json / spdx outputs are compared across hash seeds, worker counts, listing orders, working directories and root spellings (bounded, labelled); one listed known finding (paths of non_compliant lists echo the root spelling)",
     "OS scheduling of worker processes is not a value a function contract quantifies over: the frame of the per-file functions is the deductive substitute; Pool.map assumed to return one result per input; os.walk / glob order only by the bounded runs", "4.14")
+T = CLAIMED["C12"][1]
+CLAIMED["C07"] = ("proof", T + "; template and comment style universally abstracted; bounded runs of the real command read back with the tool's reader",
+    "contract on the real body of _create_new_header with ANY template and ANY comment style: a header is returned only if the reader finds exactly the requested copyright notices and licence expressions in it (else MissingReuseInfoError, nothing written: C11); create_header passes it the union of old and requested information; make_copyright_line builds the notices (C20); reader/writer agreement for every file type (both tables, enumerated completely), every --style, prefixes, years, sidecars, templates and awkward holders is a bounded round trip through the real command (labelled bounded)",
+    "the reader is a ghost function of the text in the proof (its patterns: C02/C20 bounded); contributors are outside the code's read-back guard (covered by the bounded runs); jinja2 and the style classes themselves are not under contract", "4.7")
+CLAIMED["C08"] = ("proof", T + "; bounded byte comparison of the real command",
+    "string contracts on the real bodies of _find_first_spdx_comment (before + header + after partitions the text, for any comment finder returning an initial segment that ends at a line end), place_header (kept prefix up to trailing white space, suffix byte for byte, only adjacent blank lines change) and detect_line_endings; shebang extraction, BOM, CR/CRLF write-back, final newline and --no-replace are bounded byte comparisons over ~20 body shapes x styles x line endings (labelled bounded)",
+    "comment_at_first_character assumed to return an initial segment ending at a line end ('\\n' the only line boundary); find_and_replace_header's composition and _extract_shebang are bounded only; open()'s newline translation assumed", "4.8")
+CLAIMED["C09"] = ("proof", T + "; ReuseInfo.union / copy inlined from the real class; bounded command sequences against a running model",
+    "contract on the real body of create_header: the returned header is the writer's function of (old U requested notices [through the merge function with --merge-copyrights], old U requested expressions, old U requested contributors) and the reader finds exactly those notices and expressions in it; histories of the real command (length 3 quick / 4 thorough over 10 steps incl. --merge-copyrights, --no-replace, --skip-existing, templates) are checked step by step against a running model (labelled bounded), as is merge_copyright_lines",
+    "the located old header and the reader are ghost functions (C08/C10/C02); merge_copyright_lines is bounded only; information outside the first header block is not re-read by annotate", "4.9")
+CLAIMED["C10"] = ("proof", T + "; bounded repeated runs of the real command",
+    "contracts on the real bodies of _create_new_header (the header text is a function of the three SETS, template, style and flags: no iteration order observable), create_header and place_header (no blank line added when a header existed); that every style finds the block its own writer produced and the byte-level fixpoint are bounded: every --style x single/multi x 3 requests x bodies, both file-type tables, option combinations, run 2 / 3 times (labelled bounded)",
+    "comment_at_first_character / contains_reuse_info on the tool's own output are bounded only; --no-replace and a pre-commented template of a foreign style are excluded (stacking is their meaning)", "4.10")
+CLAIMED["C02"] = ("other", "regular-language equality of the real compiled _END_PATTERN against the star of all style terminators (z3 regex, all strings); bounded enumeration of style x form x tag line through the real reader; bounded window / snippet / error files",
+    "proved for all strings: the terminator language of the real _END_PATTERN equals 'any sequence of the multi-line terminators of all comment styles and the three special endings' (read from the real style table each run); bounded: every style x up to 10 line shapes x licence / copyright / contributor lines read back exactly; tags around the 4096-byte boundary with LF / CRLF / non-ASCII fillers, snippet marker, unparseable expressions; one listed known finding (copyright inside an ASCII-art frame)",
+    "capture groups of backtracking regular expressions are not decided by the installed solvers: value exactness is bounded, not proved; find_spdx_tag / reuse_info_of_file bodies are not under contract", "4.2")
 NOT_YET = "check not built yet in this session (work in progress; see DESIGN.md section 4 for the planned contracts)"
 props = [json.loads(l) for l in open(os.path.join(V, "properties.jsonl"))]
 checks, na = [], []
